@@ -158,9 +158,19 @@ func USES(tier string, f func(Case)) {
 							if s1.mod != "a" || s2.mod != "a" {
 								continue
 							}
-							c := ir.Cont("scopec", g, g2, g3, ir.Typedef("t", "int32"), s1.wrap(ir.Uses("g")))
+							// a scoped grouping named with the module's own prefix is still the scoped one:
+							// by the second using site, by a lone site for every other body, and by g2
+							// for the remaining bodies
+							first := "g"
+							if sj == si && bi%2 == 1 {
+								first = "a:g"
+							}
+							if bi%2 == 0 {
+								g2.Kids[1].Name = "a:g3"
+							}
+							c := ir.Cont("scopec", g, g2, g3, ir.Typedef("t", "int32"), s1.wrap(ir.Uses(first)))
 							if sj != si {
-								c.Kids = append(c.Kids, s2.wrap(ir.Uses("g")))
+								c.Kids = append(c.Kids, s2.wrap(ir.Uses("a:g")))
 							}
 							a.Body = append(a.Body, c)
 						} else {
